@@ -257,3 +257,11 @@ def names_update(seen, xs):
 def replace_all(xs, ys):
     xs[:] = ys
     return len(xs)
+
+
+def keep_pos(xs):
+    return [x for x in xs if x > 0]
+
+
+def version_string(major, minor):
+    return "%d.%03d" % (major, minor)
